@@ -65,6 +65,8 @@ def units(tier, seed):
     for mode in ("list-FF", "list-FT", "list-TT", "bool-F", "bool-T", "aggregate"):
         for L in range(1, 4 if tier == "quick" else 5):
             us.append({"kind": "multi", "L": L, "mode": mode})
+    for mode in ("list-FT", "bool-T"):
+        us.append({"kind": "multisearch", "mode": mode, "n": 6, "max_dev": 2 if tier == "quick" else 3, "max_execs": 1500 if tier == "quick" else 20000})
     for algo in ("gp", "rs", "hc", "1+1"):
         for minimize in (False, True):
             for n in (3, 6) if tier == "quick" else (3, 6, 9):
@@ -270,8 +272,62 @@ def run_search(unit) -> UnitResult:
     return r
 
 
+def run_multisearch(unit) -> UnitResult:
+    """GP on a multi-objective problem: the returned individual attains the best aggregate evaluated."""
+    r = UnitResult()
+    mode = unit["mode"]
+
+    def run(src):
+        rep = StubRepresentation(2)
+        log = []
+
+        def ff(p):
+            v = [float(src.randint(0, 2)), float(src.randint(0, 2))]
+            log.append(v)
+            return v
+
+        mins = [False, True] if mode == "list-FT" else True
+        problem = MultiObjectiveProblem(mins, ff)
+        rec = Rec()
+        tracker = MultiObjectiveProgressTracker(problem, SequentialEvaluator(), recorders=[rec])
+        alg = GeneticProgramming(problem, EvaluationBudget(unit["n"]), rep, random=src, tracker=tracker, population_size=3)
+        res = alg.search()
+        return res, problem, log, tracker
+
+    def agg(v):
+        if mode == "list-FT":
+            return v[0] - v[1]
+        return -v[0] - v[1]
+
+    st = ExploreStats()
+    for ex in explore(run, max_dev=unit["max_dev"], max_execs=unit["max_execs"], horizon=5000, stats=st):
+        r.executions += 1
+        if ex.capped or ex.exc is not None:
+            r.count("search_raised(other properties' business)")
+            continue
+        res, problem, log, tracker = ex.result
+        r.count("searches")
+        best = max(agg(v) for v in log)
+        if len({agg(v) for v in log}) > 1:
+            r.nontrivial += 1
+        w = {"unit": unit, "choices": list(ex.choices)}
+        got = res.get_fitness(problem) if res is not None and res.has_fitness(problem) else None
+        if got is None or abs(agg(got.fitness_components) - best) > 1e-9:
+            r.add_violation(Violation(PROP, "gp.search", "returned-not-best", {"algo": "gp", "multi": True}, w,
+                                      f"multi-objective GP ({mode}): returned {None if got is None else got.fitness_components}, "
+                                      f"best aggregate {best} among {log}"))
+        for b in tracker.get_best_individuals():
+            if abs(agg(b.get_fitness(problem).fitness_components) - best) > 1e-9:
+                r.add_violation(Violation(PROP, "MultiObjectiveProgressTracker.get_best_individuals", "not-the-best-so-far", {"mode": mode}, w,
+                                          f"multi-objective GP ({mode}): a reported best has aggregate {agg(b.get_fitness(problem).fitness_components)}, best {best}"))
+    r.states = st.executions
+    r.truncated = st.truncated
+    r.samples.append({"multisearch": mode, "runs": st.executions})
+    return r
+
+
 def run_unit(unit) -> UnitResult:
-    return {"single": run_single, "multi": run_multi, "search": run_search}[unit["kind"]](unit)
+    return {"single": run_single, "multi": run_multi, "search": run_search, "multisearch": run_multisearch}[unit["kind"]](unit)
 
 
 def finalize(cr):
